@@ -59,6 +59,19 @@ BlockTab ==
    t7    |-> << D("TYPE", <<"@t7", "regex">>, "", FALSE, "rx2", "") >>,
    useR1 |-> << D("GET", <<"pr1">>, "", FALSE, "", ""), D("RESP", <<>>, "", FALSE, "objr7", "200") >>,          \* needs t7
    useR2 |-> << D("GET", <<"pr2">>, "", FALSE, "", ""), D("RESP", <<>>, "", FALSE, "objr7", "200") >>,          \* needs t7
+   \* a declared TAG whose name is also the automatic tag of a path: used through Tags first, then by an untagged interaction
+   tagCats |-> << D("TAG", <<"@cats">>, "Cats", FALSE, "", ""), D("Description", <<>>, "", FALSE, "d1", "") >>,
+   catsT   |-> << D("GET", <<"pcats">>, "", FALSE, "", ""), D("Tags", <<"@cats">>, "", FALSE, "", ""), D("RESP", <<"any">>, "", FALSE, "", "200") >>,        \* needs tagCats
+   catsU   |-> << D("GET", <<"pcatsid">>, "", FALSE, "", ""), D("RESP", <<"any">>, "", FALSE, "", "200") >>,                                              \* untagged: automatic tag @cats
+   dogsT   |-> << D("GET", <<"pdogs">>, "", FALSE, "", ""), D("Tags", <<"@cats">>, "", FALSE, "", ""), D("RESP", <<"any">>, "", FALSE, "", "200") >>,        \* needs tagCats
+   tagSame |-> << D("TAG", <<"@kits">>, "Kits", FALSE, "", ""), D("Description", <<>>, "", FALSE, "d2", ""),
+                  D("GET", <<"pkits">>, "", FALSE, "", ""), D("Tags", <<"@kits">>, "", FALSE, "", ""), D("RESP", <<"any">>, "", FALSE, "", "200"),
+                  D("GET", <<"pkitsid">>, "", FALSE, "", ""), D("RESP", <<"any">>, "", FALSE, "", "200") >>,                   \* the same in one block
+   \* two path parameters that differ in letter case only
+   idID  |-> << D("GET", <<"pidID">>, "", FALSE, "", ""), D("RESP", <<"any">>, "", FALSE, "", "200") >>,
+   \* two OperationId directives with different ids on one method (rejected: the second one)
+   opid2 |-> << D("GET", <<"pop2">>, "", FALSE, "", ""), D("OperationId", <<"opA">>, "", FALSE, "", ""), D("OperationId", <<"opB">>, "", FALSE, "", ""),
+                D("RESP", <<"any">>, "", FALSE, "", "200") >>,
    \* a Tags directive that names the automatic tag of another path (never declared by TAG): rejected, in either order
    tagAuto |-> << D("GET", <<"pcats">>, "", FALSE, "", ""), D("RESP", <<"any">>, "", FALSE, "", "200"),
                   D("GET", <<"pdogs">>, "", FALSE, "", ""), D("Tags", <<"@cats">>, "", FALSE, "", ""), D("RESP", <<"any">>, "", FALSE, "", "200") >>,
